@@ -341,17 +341,7 @@ Proof.
   do 3 eexists. repeat split. unfold cmp_z. lia.
 Qed.
 
-(* ---------- the guarded theorem ---------- *)
-Theorem exact_on_domain o args :
-  in_domain o args = true -> o <> ORound Round -> o <> OCmp CEq ->
-  s_out o args = Some (m_op o args).
-Proof.
-  intros Hd Hr He. destruct o as [ | | | |m| | | | | | | |c]; try discriminate Hd.
-  - apply add_exact, Hd. - apply sub_exact, Hd. - apply mul_exact, Hd.
-  - destruct m; [apply floor_exact|apply ceiling_exact|apply truncate_exact|congruence]; exact Hd.
-  - apply mod_exact, Hd. - apply rem_exact, Hd. - apply abs_exact, Hd. - apply inc_exact, Hd. - apply dec_exact, Hd.
-  - apply cmp_exact; [congruence|exact Hd].
-Qed.
+(* the guarded theorem over all operations is assembled in ProofsAll.v *)
 
 (* ---------- refutations outside the guard (the faithful model against S): known findings ---------- *)
 Definition B := 100000000000000000000.
@@ -395,7 +385,8 @@ Definition refutation_witnesses : list (opn * list val) :=
     (ORem, [VFix 5; VFix 0]);                                          (* rem by zero: Go runtime fault *)
     (OMod, [VFix 5; VFix 0]);                                          (* arithmetic-error, not division-by-zero *)
     (ORound Truncate, [VFix (-9223372036854775808); VFix (-1)]);       (* quotient wraps *)
-    (OCmp CEq, [VBig 590295810358705651712; VRat 1180591620717411303425 2]) ].  (* 2^69 = 2^69 + 1/2 through float64 *)
+    (OCmp CEq, [VBig 590295810358705651712; VRat 1180591620717411303425 2]);    (* 2^69 = 2^69 + 1/2 through float64 *)
+    (OBit BAnd, [VBig B; VFix 1]) ].                                   (* small result of the bignum loop stays a bignum *)
 Lemma outside_guard_refuted :
   forallb (fun w => refuted (fst w) (snd w)) refutation_witnesses = true /\
   forallb (fun w => negb (in_domain (fst w) (snd w))) refutation_witnesses = true.
